@@ -254,7 +254,7 @@ PROPS["C02"] = dict(
               "Goflow.C02Cost.cost_within_budget", "Goflow.C02Cost.cost_within_budget_udp", "Goflow.C02Cost.Netflow.netflow_cost_bound", "Goflow.C02Cost.Sflow.sflow_cost_bound",
               "Goflow.C02Cost.V5.v5_cost_bound", "Goflow.C02Cost.produce_cost_bound", "Goflow.C02Cost.Netflow.netflow_split", "Goflow.C02Cost.Sflow.sflow_split", "Goflow.C02Cost.V5.v5_split",
               "Goflow.C02Cost.uncapped_cost_unbounded"],
-    generators=[dict(name="C02", quick=50, thorough=2500)],
+    generators=[dict(name="C02", quick=50, thorough=500)],
     harness=["impl"],
     count_all=True,
     level_text="Theorems: an allocation COST MODEL (Goflow/Cost.lean: every make / append / boxing site of the three decoders, the conversion and the pipes, charged in the order the Go code allocates — a make before its elements are read, so failed decodes have paid; element sizes from unsafe.Sizeof, append growth over-approximated by 5.5x) and cost_within_budget: for every pipe, state, exporter and every byte string of at most 16000 bytes (the receive buffer is 9000) the modelled cost is at most 16 MiB + 256 x length x (1 + widest template the datagram can reference); per-decoder bounds, the share of the conversion not budgeted twice (netflow_split, sflow_split, v5_split), uncapped_cost_unbounded (the caps carry it); make_sites_capped etc. on the regenerated make sites. Tie: the real allocator is measured per datagram (runtime.MemStats.TotalAlloc around DecodeFlow) and compared on every run with the budget of the property at the widest template of the model (oracle) and with 2 x modelled cost + 64 KiB (validation of the cost model: a site missing from the model shows up). PARTIAL in that the allocator itself (size classes, map growth, the Prometheus registry) is measured, not modelled; above ~17 KB (unreachable through the 9000-byte receiver) the real code exceeds the budget — recorded as an observation.",
